@@ -147,6 +147,9 @@ type Exec struct {
 	modelExtra     string
 	litLens        map[string]int
 	retInfos       []retInfo
+	prefHash       [][32]byte // cache.go
+	guardProv      map[string]*guardInfo // guard.go: map references read out of guarded fields
+	entryWM        Term
 }
 
 type retInfo struct {
@@ -1152,6 +1155,9 @@ func (x *Exec) execBody(fn *ssa.Function, st *State, args []Value, bindings []Va
 	}
 	x.analyzeLoops(fr)
 	fr.entrySt = st
+	if top && x.entryWM.S == "" {
+		x.entryWM = st.wm
+	}
 	// order: reverse postorder ignoring back edges
 	var order []*ssa.BasicBlock
 	visited := map[*ssa.BasicBlock]bool{}
@@ -1431,7 +1437,7 @@ func (x *Exec) mergeStates(ins []edgeIn) *State {
 			keys[k] = true
 		}
 	}
-	for k := range keys {
+	for _, k := range sortedAllocs(keys) {
 		var cs []Term
 		var vs []Value
 		for i, in := range ins {
@@ -1448,7 +1454,7 @@ func (x *Exec) mergeStates(ins []edgeIn) *State {
 			gkeys[k] = true
 		}
 	}
-	for k := range gkeys {
+	for _, k := range sortedStrings(gkeys) {
 		var cs []Term
 		var vs []Value
 		for i, in := range ins {
@@ -1491,6 +1497,42 @@ func (x *Exec) mergeStates(ins []edgeIn) *State {
 		}
 		out.epoch = e
 	}
+	return out
+}
+
+// deterministic iteration orders (the text of a verification condition must not depend on Go's map order)
+func sortedAllocs(m map[*ssa.Alloc]bool) []*ssa.Alloc {
+	out := make([]*ssa.Alloc, 0, len(m))
+	for k := range m {
+		out = append(out, k)
+	}
+	sort.Slice(out, func(i, j int) bool {
+		if out[i].Pos() != out[j].Pos() {
+			return out[i].Pos() < out[j].Pos()
+		}
+		if out[i].Name() != out[j].Name() {
+			return out[i].Name() < out[j].Name()
+		}
+		return out[i].Comment < out[j].Comment
+	})
+	return out
+}
+
+func (x *Exec) sortedHeapNames() []string {
+	out := make([]string, 0, len(x.heapSorts))
+	for k := range x.heapSorts {
+		out = append(out, k)
+	}
+	sort.Strings(out)
+	return out
+}
+
+func sortedStrings(m map[string]bool) []string {
+	out := make([]string, 0, len(m))
+	for k := range m {
+		out = append(out, k)
+	}
+	sort.Strings(out)
 	return out
 }
 
